@@ -194,6 +194,10 @@ func (x *Exec) lookupIdent(st *State, fr *Frame, name string, sc *scope) (Val, e
 		pkg = fr.fn.Pkg
 	}
 	if pkg != nil {
+		if rc := recordedConst(pkg, name); rc != nil {
+			x.Abstracted["renamed constant followed by its value: "+name+" -> "+rc.Name()]++
+			return x.constVal(rc.Value), nil
+		}
 		if m := pkg.Members[name]; m != nil {
 			if nc, ok := m.(*ssa.NamedConst); ok {
 				return x.constVal(nc.Value), nil
@@ -1084,6 +1088,13 @@ func (x *Exec) evalCall(st *State, fr *Frame, e ECall, sc *scope) (Val, error) {
 							continue // first call of this callee: there is no earlier one
 						}
 						v = pv
+					}
+					cf := x.P.Funcs[key[5:]]
+					if cf == nil {
+						cf = x.P.Funcs[stripTypeArgs(key[5:])] // an instance: same parameter names as the generic function
+					}
+					if cf != nil && k >= 0 && len(cf.Params) == len(v.Tup) {
+						k = recordedParamIndex(key[5:], cf, k) // the parameter that was k-th when recorded
 					}
 					if k >= 0 && k < len(v.Tup) {
 						return v.Tup[k], nil
